@@ -65,6 +65,10 @@ def fam_lb(ctx, o):
     kbu_rules.run_line_buffers(ctx.facts, o, ctx.eff)
 
 
+def fam_bz(ctx, o):
+    kbu_rules.run_bezier(ctx.facts, o)
+
+
 def fam_ci(ctx, o):
     kbu_rules.run_cache(ctx.facts, o)
 
@@ -144,7 +148,7 @@ FAMILIES = {
     'ug': fam_ug, 'ab': fam_ab, 'u8': fam_u8, 'px': fam_px,
     'kt': fam_kt, 'kv': fam_kv, 'fr': fam_fr, 'fr_enc': fam_fr_enc, 'ic': fam_ic,
     'ed': fam_ed, 'dg': fam_dg, 'ea': fam_ea, 'kbu_bufs': fam_kbu_bufs, 'kbu_ticks': fam_kbu_ticks,
-    'ci': fam_ci, 'lb': fam_lb,
+    'ci': fam_ci, 'lb': fam_lb, 'bz': fam_bz,
 }
 
 # property -> list of (family, [rule ids]) ; rule id prefix match on Inst.rule
@@ -161,18 +165,19 @@ PROPS = {
         'title': 'Decode -> encode -> decode returns the same map',
     },
     'C03': {
-        'families': [('kv', ['KV']), ('kt', ['KT-K1', 'KT-K2', 'KT-K3', 'KT-K7']), ('dg', ['DG-D1', 'DG-D2', 'DG-D3'])],
-        'floors': {'KV': 15, 'KT-K1': 33, 'KT-K2': 30, 'KT-K7': 6},
+        'families': [('kv', ['KV']), ('kt', ['KT-K1', 'KT-K2', 'KT-K3', 'KT-K7']), ('dg', ['DG-D1', 'DG-D2', 'DG-D3']),
+                     ('sc', ['SC-C11']), ('nf', ['NF'])],
+        'floors': {'KV': 15, 'KT-K1': 33, 'KT-K2': 30, 'KT-K7': 6, 'SC-C11': 29, 'NF': 15},
         'title': 'Edits to a decoded map survive encode -> decode',
     },
     'C04': {
-        'families': [('fr_enc', ['FR-F5']), ('fr', ['FR-F2']), ('kt', ['KT-K3'])],
-        'floors': {'FR-F5': 10, 'FR-F2': 13, 'KT-K3': 30},
+        'families': [('fr_enc', ['FR-F5']), ('fr', ['FR-F2']), ('kt', ['KT-K3', 'KT-K8', 'KT-K10'])],
+        'floors': {'FR-F5': 10, 'FR-F2': 13, 'KT-K3': 30, 'KT-K8': 2, 'KT-K10': 6},
         'title': 'The encoder only emits text that its own decoder accepts (framing clause)',
     },
     'C05': {
         'families': [('fr', ['FR-F1', 'FR-F2', 'FR-F3', 'FR-F4', 'SW']), ('dg', ['DG-D4']), ('sc', ['SC-C05']), ('lb', ['LB'])],
-        'floors': {'FR-F1': 11, 'FR-F2': 13, 'FR-F3': 6, 'FR-F4': 6, 'SW': 2, 'DG-D4': 18, 'SC-C05': 1, 'LB': 2},
+        'floors': {'FR-F1': 11, 'FR-F2': 13, 'FR-F3': 6, 'FR-F4': 6, 'SW': 2, 'DG-D4': 18, 'SC-C05': 9, 'LB': 2},
         'title': 'File framing: which lines reach which section parser',
     },
     'C08': {
@@ -197,7 +202,7 @@ PROPS = {
     },
     'C11': {
         'families': [('sc', ['SC-C11']), ('nf', ['NF']), ('kv', ['KV']), ('ea', ['EA'])],
-        'floors': {'SC-C11': 28, 'NF': 15, 'KV': 15, 'EA': 8},
+        'floors': {'SC-C11': 29, 'NF': 15, 'KV': 15, 'EA': 8},
         'title': 'Key/value, event and colour records decode per the format rules',
     },
     'C12': {
@@ -231,7 +236,7 @@ PROPS = {
         'title': 'Slider event stream has the legacy structure and timing',
     },
     'C18': {
-        'families': [('kbu_bufs', ['KBU']), ('ci', ['CI']), ('sscurve', ['SS-C18'])],
+        'families': [('kbu_bufs', ['KBU']), ('ci', ['CI']), ('sscurve', ['SS-C18']), ('bz', ['BZ'])],
         'floors': {'KBU': 9, 'CI': 4, 'SS-C18': 2},
         'title': 'Curve computation is pure: buffers, caches and API choice do not matter',
     },
